@@ -14,8 +14,8 @@ pub fn case(i: u64, seed: u64) -> Scenario {
     k /= 15;
     // up to 100 ms the replies to a quality report arrive before the next one is sent (200 ms interval);
     // 130 and 250 ms have one or more reports in flight
-    let lat = [0u16, 5, 10, 20, 35, 50, 75, 100, 130, 250][(k % 10) as usize];
-    k /= 10;
+    let lat = [0u16, 5, 10, 20, 35, 50, 75, 100, 130, 250, 400][(k % 11) as usize];
+    k /= 11;
     let fps = [60u16, 30, 120][(k % 3) as usize];
     k /= 3;
     let delay = [0u8, 2, 6][(k % 3) as usize];
@@ -63,9 +63,17 @@ pub fn case(i: u64, seed: u64) -> Scenario {
     sc.settle = 0;
     sc.timeout_ms = 5000;
     sc.notify_ms = 3000;
+    // half of the long links: a disconnect timeout BELOW the link's round-trip time (the timeout bounds how long a
+    // peer may be silent, not how long a packet may travel; packets arrive every tick, so nobody is ever dropped) -
+    // as long as the pause that produces the lead stays well below it
+    let to = 2 * lat as u32 * 3 / 4;
+    if lat >= 130 && mix(seed ^ 0x70ff, i) % 2 == 0 && lead.unsigned_abs() * fm + 150 <= to {
+        sc.timeout_ms = to;
+        sc.notify_ms = to / 2;
+    }
     sc
 }
-pub const NCASES: u64 = 15 * 10 * 3 * 3;
+pub const NCASES: u64 = 15 * 11 * 3 * 3;
 
 pub fn eval(sc: &Scenario) -> CaseResult {
     let mut opts = RunOpts::default();
@@ -197,6 +205,9 @@ pub fn eval(sc: &Scenario) -> CaseResult {
     r.nontrivial = r.counters.iter().any(|c| c.0 == "frames_ahead_samples_compared" && c.1 >= 10) && a.stats_samples.iter().any(|s| s.2.is_ok());
     if k != 0 {
         r.classes.push("lead!=0");
+    }
+    if (sc.timeout_ms as i64) < 2 * lat {
+        r.classes.push("disconnect_timeout<round_trip");
     }
     if sc.max_pred == 0 {
         r.classes.push("lockstep");
@@ -335,7 +346,7 @@ pub fn run_prop(ctx: &Ctx) -> PropReport {
     let seed = ctx.seed;
     let reps = ctx.tier.pick(2u64, 8u64);
     rep.part(|| run_enum(ctx, "steady_lead",
-        "bounded enumeration: lead k in -7..=7 x symmetric latency {0,5,10,20,35,50,75,100 ms} x fps {60,30,120} x input delay {0,2}; two peers, window 40, lock-stepped ticks after a warm-up, polls every millisecond between ticks (as the documented loop polls every iteration); oracle, sampled every 10 ticks after the warm-up: |frames_ahead_A - k| <= 1, |frames_ahead_B + k| <= 1, |sum| <= 1; every WaitRecommendation raised only with frames_ahead() >= 3 as read right after that call, skip_frames == frames_ahead(), >= 60 frames apart, and given at all when |k| >= 4; 2L <= ping <= 2L + one tick; one side's local_frames_behind == the other's remote_frames_behind (+-1, a mismatch must persist for 4 samples: the remote figure lags by the report interval plus the latency); NotEnoughData before 1 s, numbers afterwards; non-trivial = >= 10 post-warm-up samples and stats available",
+        "bounded enumeration: lead k in -7..=7 x symmetric latency {0,5,10,20,35,50,75,100,130,250,400 ms} x fps {60,30,120} x input delay {0,2,6}; two peers, window 40 (sometimes 8 or 4), desync detection off/1/5/12, on half of the long links a disconnect timeout below the round-trip time, lock-stepped ticks after a warm-up, polls every millisecond between ticks (as the documented loop polls every iteration); oracle, sampled every 10 ticks after the warm-up: |frames_ahead_A - k| <= 1, |frames_ahead_B + k| <= 1, |sum| <= 1; every WaitRecommendation raised only with frames_ahead() >= 3 as read right after that call, skip_frames == frames_ahead(), >= 60 frames apart, and given at all when |k| >= 4; 2L <= ping <= 2L + one tick; one side's local_frames_behind == the other's remote_frames_behind (+-1, a mismatch must persist for 4 samples: the remote figure lags by the report interval plus the latency); NotEnoughData before 1 s, numbers afterwards; non-trivial = >= 10 post-warm-up samples and stats available",
         NCASES * reps, move |i| case(i % NCASES, mix(seed, i / NCASES)), eval, true));
     rep.part(|| run_enum(ctx, "lockstep_wait_lead",
         "bounded enumeration: lockstep sessions (window 0) driven through advance_frame_with_wait() x fps {60,120,30} x input delay {3,4,6,8} x latency = 1..2 ticks + a phase of {1, 3, 1/3, 1/2, 2/3 tick} (>= the helper's timeout, so the awaited input arrives while the helper spins) x follower paused for {0,1,2,d-1,d,d+3} ticks (from d - latency on the leader sits at the largest lead lockstep allows and completes every frame from inside the wait loop) x who uses the helper {both, leader, follower} x which peer follows; the peers of a round wait in parallel (Scenario::wait_mode); same oracle as steady_lead",
